@@ -361,12 +361,6 @@ theorem tot2_prepare {w : World} (h : WOk w) (e : Evm.Env) (spec ig : Nat)
     obtain ⟨f, wf⟩ := q
     exact tot2_pure (first_of_fout hp.ok hq.1 hq.2 _ _)
 
-theorem tot2_bind' {α β} {x : R α} {f : α → R β} {P : α → Prop} {Q : β → Prop} (h1 : Tot2 x P)
-    (h2 : ∀ a, x = .ok a → P a → Tot2 (f a) Q) : Tot2 (x >>= f) Q := by
-  cases x with
-  | error e => exact h1
-  | ok a => exact h2 a rfl h1
-
 /-- **`Evm.transact` hits no journal / frame-machine `unwrap`**: on a well-formed world (C07 `Good` journal, 256-bit
 balances in the database), for every environment, fork and fuel, the answer is a result, a soft failure, or a residual
 failure (interpreter side / environment / fuel) -/
@@ -385,13 +379,13 @@ theorem transact_tot2 (fuel : Nat) (w : World) (e : Evm.Env) (spec : Nat) (h : W
     dsimp only
     refine tot2_bind (P := fun p : TxResult × World => WOk p.2) ?_ (fun p hp => tot2_pure hp)
     unfold execute
-    refine tot2_bind (tot2_prepare h1 e _ ig hfee) (fun q hq => ?_)
+    refine tot2_bind' (tot2_prepare h1 e _ ig hfee) (fun q hprep hq => ?_)
     obtain ⟨first, w2, isCreate, k⟩ := q
     dsimp only
     refine tot2_bind (P := fun p : Interp.ChildResult × World => WOk p.2) ?_ (fun p hp => ?_)
     · unfold FirstOk at hq
       cases first with
-      | frame f => exact (tot2_runLoop _ fuel).1 [f] w2 (List.cons_ne_nil _ _) hq
+      | frame f => exact (tot2_runLoop _ fuel).1 [f] w2 (List.cons_ne_nil _ _) hq (Proofs.EvmInstLoaded.prepare_inv hprep)
       | result r => exact tot2_pure hq
     · obtain ⟨res, w3⟩ := p
       exact tot2_finish hp e _ fg k isCreate res
